@@ -22,6 +22,7 @@ import (
 	"crypto/elliptic"
 	"crypto/rsa"
 	"crypto/x509"
+	"encoding/base64"
 	"errors"
 	"hash"
 	"io"
@@ -928,3 +929,11 @@ func M_Rename(oldpath, newpath string) error {
 	MFS[newpath] = mf // (*os.File).Name keeps reporting the name the file was opened with
 	return nil
 }
+
+// ---------- base64 (session tokens) ----------
+// Encoding is modelled as the identity between byte strings and token strings:
+// it is a bijection onto the well-formed tokens, and that is all the token check
+// relies on. Malformed tokens (which the real decoder rejects with an error that
+// the caller turns into "no session") are therefore outside the model.
+func M_B64Encode(enc *base64.Encoding, b []byte) string          { return string(b) }
+func M_B64Decode(enc *base64.Encoding, s string) ([]byte, error) { return []byte(s), nil }
